@@ -4,6 +4,11 @@
 //!   V (t <shape> | rl <v>* | ll <v>* | es <k> <v>* | rs <v>* t <shape>)   shape: prefix, n = node, l<v> = leaf
 //!   C <kind> ; <clauses>                   kind: lin | perm <k> <p>*k | mf | force <k> <p>*k | forcep
 //!                                          clauses: DIMACS literals (1-based, signed), 0 ends a clause
+//!   W <k> (<a> <b>)*k <src>                DEEP vtrees (62..160 leaves, some node at depth >= 64 in most):
+//!                                          src: rl <v>* | ll <v>* | t <shape> | cnf ; <clauses>  (vtree of the
+//!                                          dtree of the CNF under the linear order); the k pairs of in-order
+//!                                          indices are the lca / is_prime queries shown in the result line (and
+//!                                          compared with the model); the oracle checks ALL node pairs
 //! Output: one canonical line; P = the implementation panicked where the model returns None.
 use rsdd::repr::{Cnf, DTree, Literal, PartialVariableOrder, VTree, VTreeIndex, VTreeManager, VarLabel, VarOrder};
 use rsdd::util::btree::BTree;
@@ -107,7 +112,153 @@ fn cls_str(cls: &[Vec<i64>]) -> String {
     s
 }
 
+// ---------------------------------------------------------------- DEEP vtrees (stream W): generator
+/// small pieces peeled off one side at every level: depth about leaves / 1.5
+fn peel_shape(rng: &mut Rng, labels: &[usize], bias: u64, zigzag: bool, flip: bool) -> Sh {
+    if labels.len() <= 2 {
+        return rand_shape(rng, labels);
+    }
+    let m = if zigzag { 1 } else { (*rng.pick(&[1usize, 1, 1, 1, 1, 2, 3])).min(labels.len() - 1) };
+    let left_small = if zigzag { flip } else { rng.chance(bias, 100) };
+    if left_small {
+        Sh::N(Box::new(rand_shape(rng, &labels[..m])), Box::new(peel_shape(rng, &labels[m..], bias, zigzag, !flip)))
+    } else {
+        let c = labels.len() - m;
+        Sh::N(Box::new(peel_shape(rng, &labels[..c], bias, zigzag, !flip)), Box::new(rand_shape(rng, &labels[c..])))
+    }
+}
+/// depth of every node, in in-order sequence
+fn sh_depths(s: &Sh, d: usize, out: &mut Vec<usize>) {
+    match s {
+        Sh::L(_) => out.push(d),
+        Sh::N(l, r) => {
+            sh_depths(l, d + 1, out);
+            out.push(d);
+            sh_depths(r, d + 1, out);
+        }
+    }
+}
+fn gen_deep(rng: &mut Rng, thorough: bool) -> String {
+    let hi = if thorough { 160 } else { 130 };
+    // mostly >= 65 leaves; a few just below (depth 61..63: the last sizes every width of index survives)
+    let k = if rng.chance(1, 8) { rng.range(62, 66) } else { rng.range(65, hi) };
+    let labels: Vec<usize> = match rng.below(4) {
+        0 => (0..k).collect(),
+        1 => {
+            let mut p = rng.perm(k + 5);
+            p.truncate(k);
+            p
+        }
+        _ => rng.perm(k),
+    };
+    let ls: String = labels.iter().map(|v| format!(" {v}")).collect();
+    let (src, shape): (String, Sh) = match rng.below(10) {
+        0 | 1 => (format!("rl{ls}"), Sh::L(0).right_comb(&labels)),
+        2 | 3 => (format!("ll{ls}"), Sh::left_comb(&labels)),
+        4 => {
+            let first = rng.coin();
+            let sh = peel_shape(rng, &labels, 0, true, first);
+            let mut t = String::new();
+            sh_str(&sh, &mut t);
+            (format!("t{t}"), sh)
+        }
+        5 | 6 | 7 => {
+            let bias = *rng.pick(&[8u64, 50, 92]);
+            let sh = peel_shape(rng, &labels, bias, false, false);
+            let mut t = String::new();
+            sh_str(&sh, &mut t);
+            (format!("t{t}"), sh)
+        }
+        _ => {
+            // chain-structured CNF over n variables, linear order: the dtree's cutset spine is deep
+            let n = rng.range(70, if thorough { 120 } else { 100 });
+            let mut cls: Vec<Vec<i64>> = vec![];
+            for i in 1..n as i64 {
+                let mut c = vec![if rng.coin() { -i } else { i }, if rng.coin() { i + 1 } else { -(i + 1) }];
+                if rng.chance(1, 6) && i + 2 <= n as i64 {
+                    c.push(i + 2);
+                }
+                if rng.coin() {
+                    c.reverse();
+                }
+                cls.push(c);
+            }
+            match rng.below(4) {
+                0 => cls.reverse(),
+                1 => {
+                    // a few clauses out of place
+                    for _ in 0..rng.range(1, 4) {
+                        let a = rng.range(0, cls.len() - 1);
+                        let b = rng.range(0, cls.len() - 1);
+                        cls.swap(a, b);
+                    }
+                }
+                _ => {}
+            }
+            if rng.chance(1, 4) {
+                cls.push(vec![rng.range(1, n) as i64]);
+            }
+            let cnf = mk_cnf(&cls);
+            let sh = quiet(|| {
+                let o = cnf.linear_order();
+                let d = DTree::from_cnf(&cnf, &o);
+                VTree::from_dtree(&d).map(|v| of_vtree(&v))
+            })
+            .flatten()
+            .unwrap_or(Sh::L(0));
+            (format!("cnf{}", cls_str(&cls)), sh)
+        }
+    };
+    let mut depth = vec![];
+    sh_depths(&shape, 0, &mut depth);
+    let sz = depth.len();
+    let deep: Vec<usize> = (0..sz).filter(|i| depth[*i] >= 60).collect();
+    let npairs = rng.range(50, 90);
+    let mut q = String::new();
+    for _ in 0..npairs {
+        let mut one = |rng: &mut Rng, want_deep: bool| -> usize {
+            if want_deep && !deep.is_empty() { *rng.pick(&deep) } else { rng.range(0, sz - 1) }
+        };
+        let (a, b) = match rng.below(8) {
+            0..=3 => (one(rng, true), one(rng, true)),
+            4 => (one(rng, true), one(rng, false)),
+            5 => (one(rng, false), one(rng, true)),
+            6 => {
+                let a = one(rng, true);
+                (a, if rng.coin() { a } else { (a + 1).min(sz - 1) })
+            }
+            _ => (one(rng, false), one(rng, false)),
+        };
+        q.push_str(&format!(" {a} {b}"));
+    }
+    format!("W {npairs}{q} {src}")
+}
+impl Sh {
+    fn right_comb(self, labels: &[usize]) -> Sh {
+        // the shape VTree::right_linear builds (used for choosing the queries only)
+        let mut it = labels.iter().rev();
+        let mut acc = Sh::L(*it.next().unwrap());
+        for &l in it {
+            acc = Sh::N(Box::new(Sh::L(l)), Box::new(acc));
+        }
+        acc
+    }
+    fn left_comb(labels: &[usize]) -> Sh {
+        let mut it = labels.iter();
+        let mut acc = Sh::L(*it.next().unwrap());
+        for &l in it {
+            acc = Sh::N(Box::new(acc), Box::new(Sh::L(l)));
+        }
+        acc
+    }
+}
+
 pub fn gen(rng: &mut Rng, idx: usize, n: usize, thorough: bool) -> String {
+    // DEEP vtrees: 1 case in 32, from a forked generator (the other streams keep their sequence)
+    if idx % 32 == 31 {
+        let mut r2 = Rng::new(rng.0 ^ (idx as u64).wrapping_mul(0x2545F4914F6CDD1D));
+        return gen_deep(&mut r2, thorough);
+    }
     let frac = (idx * 100) / n.max(1);
     let stream = rng.below(100);
     if stream < 22 {
@@ -758,9 +909,260 @@ fn run_cnf(t: &[&str], st: &mut Stats) -> Outcome {
     Outcome { result: out, fails, nontrivial: cls.len() >= 2 && used.len() >= 2 }
 }
 
+// ---------------------------------------------------------------- DEEP vtrees (stream W): oracle by parent pointers
+struct Deep {
+    parent: Vec<usize>, // usize::MAX for the root
+    depth: Vec<usize>,
+    right: Vec<bool>, // is the right child of its parent
+    leaf: Vec<Option<usize>>,
+    sub: Vec<String>,
+}
+/// in-order numbering by a structural walk; returns the index of the root of `t`
+fn deep_walk(t: &VTree, d: usize, w: &mut Deep) -> usize {
+    let push = |w: &mut Deep, leaf: Option<usize>, sub: String| -> usize {
+        w.parent.push(usize::MAX);
+        w.depth.push(d);
+        w.right.push(false);
+        w.leaf.push(leaf);
+        w.sub.push(sub);
+        w.parent.len() - 1
+    };
+    match t {
+        BTree::Leaf(v) => push(w, Some(v.value_usize()), vt_str(t)),
+        BTree::Node((), l, r) => {
+            let li = deep_walk(l, d + 1, w);
+            let i = push(w, None, vt_str(t));
+            let ri = deep_walk(r, d + 1, w);
+            w.parent[li] = i;
+            w.parent[ri] = i;
+            w.right[ri] = true;
+            i
+        }
+    }
+}
+/// lowest common ancestor by walking up, with the children of it through which a and b are reached
+fn deep_lca(w: &Deep, a: usize, b: usize) -> (usize, Option<usize>, Option<usize>) {
+    let (mut x, mut y) = (a, b);
+    let (mut cx, mut cy) = (None, None);
+    while w.depth[x] > w.depth[y] {
+        cx = Some(x);
+        x = w.parent[x];
+    }
+    while w.depth[y] > w.depth[x] {
+        cy = Some(y);
+        y = w.parent[y];
+    }
+    while x != y {
+        cx = Some(x);
+        cy = Some(y);
+        x = w.parent[x];
+        y = w.parent[y];
+    }
+    (x, cx, cy)
+}
+
+fn run_deep(t: &[&str], st: &mut Stats) -> Outcome {
+    let mut fails: Vec<String> = vec![];
+    let k: usize = t[1].parse().unwrap();
+    let queries: Vec<(usize, usize)> = (0..k).map(|i| (t[2 + 2 * i].parse().unwrap(), t[3 + 2 * i].parse().unwrap())).collect();
+    let src = &t[2 + 2 * k..];
+    let nums = |xs: &[&str]| -> Vec<VarLabel> { xs.iter().map(|x| VarLabel::new_usize(x.parse().unwrap())).collect() };
+    st.bump(&format!("W:{}", src[0]));
+    let tree: Option<VTree> = match src[0] {
+        "t" => {
+            let mut i = 1;
+            Some(parse_shape(src, &mut i))
+        }
+        "rl" => quiet(|| VTree::right_linear(&nums(&src[1..]))),
+        "ll" => quiet(|| VTree::left_linear(&nums(&src[1..]))),
+        "cnf" => {
+            let mut cls: Vec<Vec<i64>> = vec![];
+            let mut cur = vec![];
+            for x in &src[2..] {
+                let l: i64 = x.parse().unwrap();
+                if l == 0 {
+                    cls.push(std::mem::take(&mut cur));
+                } else {
+                    cur.push(l);
+                }
+            }
+            let cnf = mk_cnf(&cls);
+            let used: BTreeSet<usize> = cnf.clauses().iter().flat_map(|c| c.iter().map(|l| l.label().value_usize())).collect();
+            let r = quiet(|| {
+                let o = cnf.linear_order();
+                let d = DTree::from_cnf(&cnf, &o);
+                (VTree::from_dtree(&d), d)
+            });
+            match r {
+                None => {
+                    fails.push("linear_order / from_cnf / from_dtree panicked on a chain CNF".into());
+                    None
+                }
+                Some((v, d)) => {
+                    // the dtree oracle of stream C, at this size
+                    let mut lv = vec![];
+                    dt_leaves(&d, &mut lv);
+                    let mut a: Vec<String> = lv.iter().map(|c| lits_str(c)).collect();
+                    let mut b: Vec<String> = cnf.clauses().iter().map(|c| lits_str(c)).collect();
+                    a.sort();
+                    b.sort();
+                    if a != b {
+                        fails.push("dtree leaves are not the clauses".into());
+                    }
+                    let mut cuts = vec![];
+                    let mut dfails = vec![];
+                    dt_check(&d, &BTreeSet::new(), true, &mut dfails, &mut cuts);
+                    dfails.truncate(3);
+                    fails.extend(dfails);
+                    match &v {
+                        None => fails.push("from_dtree returned None although variables occur".into()),
+                        Some(v) => {
+                            let fs: BTreeSet<usize> = VTree::flatten_vtree(v).into_iter().map(|x| x.value_usize()).collect();
+                            if fs != used {
+                                fails.push("vtree leaves are not the CNF's variables".into());
+                            }
+                        }
+                    }
+                    v
+                }
+            }
+        }
+        _ => panic!("bad W case"),
+    };
+    let tree = match tree {
+        Some(x) => x,
+        None => return Outcome { result: "P".into(), fails, nontrivial: false },
+    };
+    let shape = vt_str(&tree);
+    let mut w = Deep { parent: vec![], depth: vec![], right: vec![], leaf: vec![], sub: vec![] };
+    deep_walk(&tree, 0, &mut w);
+    let sz = w.parent.len();
+    let leaves: Vec<usize> = w.leaf.iter().filter_map(|x| *x).collect();
+    let distinct: BTreeSet<usize> = leaves.iter().cloned().collect();
+    let maxd = *w.depth.iter().max().unwrap();
+    st.bump(&format!("W:leaves={}..{}", leaves.len() / 20 * 20, leaves.len() / 20 * 20 + 19));
+    st.bump(if maxd >= 64 { "W:depth>=64" } else { "W:depth<64" });
+    let mgr = match quiet(|| VTreeManager::new(tree.clone())) {
+        Some(m) => m,
+        None => {
+            if distinct.len() == leaves.len() {
+                fails.push("VTreeManager::new panicked on a tree without repeated labels".into());
+            }
+            return Outcome { result: format!("t={shape} P"), fails, nontrivial: false };
+        }
+    };
+    // every node's VTreeIndex: leaves through var_index, inner nodes as lca of leaf pairs
+    let mut idx: BTreeMap<usize, VTreeIndex> = BTreeMap::new();
+    for &l in &leaves {
+        let i = mgr.var_index(VarLabel::new_usize(l));
+        idx.insert(i.value(), i);
+    }
+    let leaf_ix: Vec<VTreeIndex> = idx.values().cloned().collect();
+    for a in &leaf_ix {
+        for b in &leaf_ix {
+            let c = mgr.lca(*a, *b);
+            idx.insert(c.value(), c);
+        }
+    }
+    let all: Vec<VTreeIndex> = idx.values().cloned().collect();
+    let mut out = format!("t={shape} n={} sz={}", mgr.num_vars(), all.len());
+    if mgr.num_vars() != leaves.len() {
+        fails.push(format!("num_vars = {} but the tree has {} leaves", mgr.num_vars(), leaves.len()));
+    }
+    for (i, l) in w.leaf.iter().enumerate() {
+        if let Some(l) = l {
+            let got = mgr.var_index(VarLabel::new_usize(*l)).value();
+            if got != i {
+                fails.push(format!("var_index({l}) = {got} is not the in-order index {i}"));
+            }
+        }
+    }
+    if all.len() != sz || all.iter().enumerate().any(|(k, i)| i.value() != k) {
+        // still say which leaf pairs are wrong: that needs no index of an inner node
+        let mut bad = 0;
+        for (a, la) in w.leaf.iter().enumerate() {
+            for (b, lb) in w.leaf.iter().enumerate() {
+                if let (Some(la), Some(lb)) = (la, lb) {
+                    let c = mgr.lca(mgr.var_index(VarLabel::new_usize(*la)), mgr.var_index(VarLabel::new_usize(*lb))).value();
+                    let want = deep_lca(&w, a, b).0;
+                    if c != want {
+                        bad += 1;
+                        if bad <= 3 {
+                            fails.push(format!("lca(leaf {la} = index {a}, leaf {lb} = index {b}) = {c}, tree walk gives {want}"));
+                        }
+                    }
+                }
+            }
+        }
+        fails.push(format!(
+            "the lca of the leaf pairs yields {} distinct indices, the tree has {} nodes ({} leaf pairs have a wrong lca)",
+            all.len(),
+            sz,
+            bad
+        ));
+        return Outcome { result: out, fails, nontrivial: false };
+    }
+    out.push_str(" vi=");
+    out.push_str(&leaves.iter().map(|&l| format!("{}:{}", l, mgr.var_index(VarLabel::new_usize(l)).value())).collect::<Vec<_>>().join(","));
+    for (k, i) in all.iter().enumerate() {
+        if vt_str(mgr.vtree(*i)) != w.sub[k] {
+            fails.push(format!("vtree({k}) is not the {k}-th node in order"));
+        }
+    }
+    // ALL node pairs against the tree walk
+    let (mut bad_lca, mut bad_pr) = (0usize, 0usize);
+    for a in 0..sz {
+        for b in 0..sz {
+            let c = mgr.lca(all[a], all[b]).value();
+            let p = mgr.is_prime_index(all[a], all[b]);
+            let (want, ca, cb) = deep_lca(&w, a, b);
+            if c != want {
+                bad_lca += 1;
+                if bad_lca <= 3 {
+                    fails.push(format!("lca({a},{b}) = {c}, tree walk gives {want} (depths {} and {})", w.depth[a], w.depth[b]));
+                }
+            }
+            // a is the lca or below its left child, b is the lca or below its right child
+            let want_p = a != b && ca.map_or(true, |x| !w.right[x]) && cb.map_or(true, |x| w.right[x]);
+            if p != want_p {
+                bad_pr += 1;
+                if bad_pr <= 3 {
+                    fails.push(format!("is_prime_index({a},{b}) = {p}, tree relation gives {want_p}"));
+                }
+            }
+        }
+    }
+    if bad_lca > 3 || bad_pr > 3 {
+        fails.push(format!("{bad_lca} of {} node pairs have a wrong lca, {bad_pr} a wrong prime relation", sz * sz));
+    }
+    // prime relation between variables (sample: the leaves of the queried subtrees)
+    for &(a, b) in queries.iter().take(20) {
+        if a < sz && b < sz {
+            let la = (0..sz).filter(|i| w.leaf[*i].is_some()).min_by_key(|i| (*i as i64 - a as i64).abs()).unwrap();
+            let lb = (0..sz).filter(|i| w.leaf[*i].is_some()).min_by_key(|i| (*i as i64 - b as i64).abs()).unwrap();
+            let p = mgr.is_prime_var(VarLabel::new_usize(w.leaf[la].unwrap()), VarLabel::new_usize(w.leaf[lb].unwrap()));
+            let (_, ca, cb) = deep_lca(&w, la, lb);
+            let want_p = la != lb && ca.map_or(true, |x| !w.right[x]) && cb.map_or(true, |x| w.right[x]);
+            if p != want_p {
+                fails.push(format!("is_prime_var(leaf at {la}, leaf at {lb}) = {p}, tree relation gives {want_p}"));
+            }
+        }
+    }
+    out.push_str(" q=");
+    for &(a, b) in &queries {
+        if a < sz && b < sz {
+            out.push_str(&format!("{a},{b}:{}:{};", mgr.lca(all[a], all[b]).value(), if mgr.is_prime_index(all[a], all[b]) { 1 } else { 0 }));
+        } else {
+            out.push_str(&format!("{a},{b}:P:{};", if a < b { 1 } else { 0 }));
+        }
+    }
+    Outcome { result: out, fails, nontrivial: true }
+}
+
 pub fn run(case: &str, st: &mut Stats) -> Outcome {
     let t = toks(case);
     match t[0] {
+        "W" => run_deep(&t, st),
         "O" => run_order(&t, st),
         "V" => run_vtree(&t, st),
         "C" => run_cnf(&t, st),
